@@ -508,67 +508,84 @@ theorem block_BInv {s : State} (hi : BInv s) :
     exact sumTo_congr (fun i _ => (endBlock_fields (s.vs i) s.height).2.2.2.1)
 
 /-- `UnbondAllMatureValidators` touches only the status -/
-theorem matureStep_fields (v : VS) (h : Nat) :
-    (if v.bonded then v.endBlock h else (v.endBlock h).matureVal).bonded = (v.endBlock h).bonded ∧
-    (if v.bonded then v.endBlock h else (v.endBlock h).matureVal).tokens = v.tokens ∧
-    (if v.bonded then v.endBlock h else (v.endBlock h).matureVal).cur = v.cur ∧
-    (if v.bonded then v.endBlock h else (v.endBlock h).matureVal).outstanding = v.outstanding ∧
-    (if v.bonded then v.endBlock h else (v.endBlock h).matureVal).paid = v.paid ∧
-    (if v.bonded then v.endBlock h else (v.endBlock h).matureVal).dust = v.dust ∧
-    (if v.bonded then v.endBlock h else (v.endBlock h).matureVal).allocated = v.allocated := by
+theorem matureStep_fields (v : VS) (h H : Nat) :
+    (if v.bonded then v.endBlock h else (v.endBlock h).matureValTo H).bonded = (v.endBlock h).bonded ∧
+    (if v.bonded then v.endBlock h else (v.endBlock h).matureValTo H).tokens = v.tokens ∧
+    (if v.bonded then v.endBlock h else (v.endBlock h).matureValTo H).cur = v.cur ∧
+    (if v.bonded then v.endBlock h else (v.endBlock h).matureValTo H).outstanding = v.outstanding ∧
+    (if v.bonded then v.endBlock h else (v.endBlock h).matureValTo H).paid = v.paid ∧
+    (if v.bonded then v.endBlock h else (v.endBlock h).matureValTo H).dust = v.dust ∧
+    (if v.bonded then v.endBlock h else (v.endBlock h).matureValTo H).allocated = v.allocated := by
   obtain ⟨f1, f2, f3, f4, f5, f6⟩ := endBlock_fields v h
   split
   · exact ⟨rfl, f1, f2, f3, f4, f5, f6⟩
-  · unfold VS.matureVal
+  · unfold VS.matureValTo
     split
-    · exact ⟨rfl, f1, f2, f3, f4, f5, f6⟩
+    · unfold VS.matureVal
+      split
+      · exact ⟨rfl, f1, f2, f3, f4, f5, f6⟩
+      · exact ⟨rfl, f1, f2, f3, f4, f5, f6⟩
     · exact ⟨rfl, f1, f2, f3, f4, f5, f6⟩
 
-/-- the unbonding period passes: the validator-set update of `block`, plus every unbonding entry is paid back out of
-the not-bonded pool -/
-theorem mature_BInv {s : State} (hi : BInv s) :
+/-- the balances of the entries that mature and of those that stay add up to the balances of all entries -/
+theorem ubdTotal_split (p : Nat × Nat × Nat × Nat → Bool) : ∀ l : List (Nat × Nat × Nat × Nat),
+    ubdTotal (l.filter p) + ubdTotal (l.filter (fun u => !p u)) = ubdTotal l := by
+  intro l
+  induction l with
+  | nil => rfl
+  | cons e es ih =>
+    cases hp : p e
+    · simp only [List.filter_cons, hp, Bool.not_false, if_true, Bool.false_eq_true, if_false, ubdTotal]
+      omega
+    · simp only [List.filter_cons, hp, Bool.not_true, if_true, Bool.false_eq_true, if_false, ubdTotal]
+      omega
+
+/-- the unbonding period of everything that began at a height ≤ `H` passes: the validator-set update of `block`, plus
+every unbonding entry created at a height ≤ `H` is paid back out of the not-bonded pool (the others stay) -/
+theorem mature_BInv {s : State} (hi : BInv s) (H : Nat) :
     BInv { s with height := s.height + 1,
-                  vs := fun i => if (s.vs i).bonded then (s.vs i).endBlock s.height else ((s.vs i).endBlock s.height).matureVal,
+                  vs := fun i => if (s.vs i).bonded then (s.vs i).endBlock s.height else ((s.vs i).endBlock s.height).matureValTo H,
                   bondedPool := s.bondedPool - s.leaving + s.entering,
-                  notBondedPool := s.notBondedPool + s.leaving - s.entering - ubdTotal s.ubd,
-                  returned := fun d => s.returned d + ubdTotal (s.ubd.filter (fun u => u.1 == d)),
-                  ubd := [], redel := [] } := by
+                  notBondedPool := s.notBondedPool + s.leaving - s.entering - ubdTotal (s.ubd.filter (fun u => decide (u.2.2.1 ≤ H))),
+                  returned := fun d => s.returned d + ubdTotal ((s.ubd.filter (fun u => decide (u.2.2.1 ≤ H))).filter (fun u => u.1 == d)),
+                  ubd := s.ubd.filter (fun u => !decide (u.2.2.1 ≤ H)),
+                  redel := s.redel.filter (fun r => !decide (r.2.2.2.1 ≤ H)) } := by
   have hb := block_BInv hi
   have b2 := hb.bonded
   have b3 := hb.notBonded
-  have e : ∀ w, bTok (if (s.vs w).bonded then (s.vs w).endBlock s.height else ((s.vs w).endBlock s.height).matureVal) =
+  have e : ∀ w, bTok (if (s.vs w).bonded then (s.vs w).endBlock s.height else ((s.vs w).endBlock s.height).matureValTo H) =
       bTok ((s.vs w).endBlock s.height) ∧
-      nTok (if (s.vs w).bonded then (s.vs w).endBlock s.height else ((s.vs w).endBlock s.height).matureVal) =
+      nTok (if (s.vs w).bonded then (s.vs w).endBlock s.height else ((s.vs w).endBlock s.height).matureValTo H) =
       nTok ((s.vs w).endBlock s.height) := by
     intro w
-    obtain ⟨g1, g2, _⟩ := matureStep_fields (s.vs w) s.height
+    obtain ⟨g1, g2, _⟩ := matureStep_fields (s.vs w) s.height H
     unfold bTok nTok
     rw [g1, g2, (endBlock_fields (s.vs w) s.height).1]
     exact ⟨rfl, rfl⟩
   refine ⟨?_, ?_, ?_, ?_, ?_, hi.gain⟩
   · intro w
     have a := hi.acct w
-    obtain ⟨_, _, g3, g4, g5, g6, g7⟩ := matureStep_fields (s.vs w) s.height
+    obtain ⟨_, _, g3, g4, g5, g6, g7⟩ := matureStep_fields (s.vs w) s.height H
     unfold Acct at a ⊢
-    show (if (s.vs w).bonded then (s.vs w).endBlock s.height else ((s.vs w).endBlock s.height).matureVal).cur ≤ _ ∧ _
+    show (if (s.vs w).bonded then (s.vs w).endBlock s.height else ((s.vs w).endBlock s.height).matureValTo H).cur ≤ _ ∧ _
     rw [g3, g4, g5, g6, g7]
     exact a
   · show s.bondedPool - s.leaving + s.entering = sumTo s.nVal (fun w => bTok _)
     rw [sumTo_congr (fun w _ => (e w).1)]
     exact b2
-  · show s.notBondedPool + s.leaving - s.entering - ubdTotal s.ubd = sumTo s.nVal (fun w => nTok _) + ubdTotal []
+  · show s.notBondedPool + s.leaving - s.entering - ubdTotal (s.ubd.filter (fun u => decide (u.2.2.1 ≤ H))) =
+      sumTo s.nVal (fun w => nTok _) + ubdTotal (s.ubd.filter (fun u => !decide (u.2.2.1 ≤ H)))
     rw [sumTo_congr (fun w _ => (e w).2)]
     have b3' : s.notBondedPool + s.leaving - s.entering =
         sumTo s.nVal (fun i => nTok ((s.vs i).endBlock s.height)) + ubdTotal s.ubd := b3
-    show _ = _ + 0
-    have z : ubdTotal ([] : List (Nat × Nat × Nat × Nat)) = 0 := rfl
+    have sp := ubdTotal_split (fun u => decide (u.2.2.1 ≤ H)) s.ubd
     omega
-  · show sumTo s.nVal (fun w => (if (s.vs w).bonded then (s.vs w).endBlock s.height else ((s.vs w).endBlock s.height).matureVal).allocated) = s.distrIn * ONE
+  · show sumTo s.nVal (fun w => (if (s.vs w).bonded then (s.vs w).endBlock s.height else ((s.vs w).endBlock s.height).matureValTo H).allocated) = s.distrIn * ONE
     rw [← hi.allocated]
-    exact sumTo_congr (fun i _ => (matureStep_fields (s.vs i) s.height).2.2.2.2.2.2)
-  · show sumTo s.nVal (fun w => (if (s.vs w).bonded then (s.vs w).endBlock s.height else ((s.vs w).endBlock s.height).matureVal).paid) = s.distrOut
+    exact sumTo_congr (fun i _ => (matureStep_fields (s.vs i) s.height H).2.2.2.2.2.2)
+  · show sumTo s.nVal (fun w => (if (s.vs w).bonded then (s.vs w).endBlock s.height else ((s.vs w).endBlock s.height).matureValTo H).paid) = s.distrOut
     rw [← hi.paid]
-    exact sumTo_congr (fun i _ => (matureStep_fields (s.vs i) s.height).2.2.2.2.1)
+    exact sumTo_congr (fun i _ => (matureStep_fields (s.vs i) s.height H).2.2.2.2.1)
 
 set_option linter.unusedSimpArgs false
 
@@ -782,10 +799,10 @@ theorem exec_BInv {c : Cfg} (hg : good c = true) {s s' : State} {o : Op}
     simp only [State.exec] at h
     cases h
     exact block_BInv hi
-  | mature =>
+  | mature H =>
     simp only [State.exec] at h
     cases h
-    exact mature_BInv hi
+    exact mature_BInv hi H
   | jail v =>
     simp only [State.exec] at h
     split at h
